@@ -7,6 +7,16 @@ props=[json.loads(l) for l in open(os.path.join(ROOT,'properties.jsonl'))]
 
 # id -> (engine, technique, level text, level note, design ref)
 CHECKS={
+ 'C01':('e1_router',
+   'explicit-state BFS over client-action and link/router schedule histories of the real Router (stepped through verif hooks), reference broker model as oracle',
+   'Exhaustive breadth-first enumeration, up to the stated depth and deviation budget, of all histories of connect/subscribe/unsubscribe/publish(QoS0-2)/release/ack/disconnect actions by 2 publishers and 2 subscribers over overlapping literal, +, #, $ and multi-byte filters/topics, including manual-scheduling episodes in which router turns (the real run_inner) and link drains are interleaved arbitrarily with client actions; every state is checked against a reference broker model (forwards must be an interleaving of prefixes of each subscription\'s owed sequence, with the granted QoS), and from every state the quiescence closure (everybody drains and acknowledges in order) must deliver everything owed.',
+   'atomicity assumption: one run_inner / one link step is atomic; bounds per configuration in the evidence file; trusted: reference model engine/src/e1/model.rs and the E4 reference matcher',
+   'DESIGN.md sections 3.1 and 4 (C01)'),
+ 'C12':('e4_topicgrid',
+   'bounded-exhaustive enumeration of all (topic, filter) string pairs over a 7/9-symbol alphabet against an independent reference, three code copies',
+   'Every ordered pair of strings up to length 4 (quick) / 5 (thorough) over {a,b,/,+,#,$,e-acute} (and a 9-symbol alphabet) is evaluated by all three copies of matches(): no panic and agreement on every pair, equality with a reference written from the MQTT rules on every (valid topic, valid filter) pair; valid_filter/valid_topic/has_wildcards compared with the reference on every string.',
+   'input space bounded by alphabet and length; trusted: the 20-line reference in engine/src/e4_topicgrid.rs',
+   'DESIGN.md sections 3.4 and 4 (C12)'),
  'C13':('e5_commitlog',
    'explicit-state BFS over append histories of the real CommitLog; every issued cursor x length read in every state, compared with a list',
    'Exhaustive enumeration of all append sequences (entry sizes smaller than / comparable to / larger than a segment) up to the depth bound for segment limits 1-3, and in every reached state every read from every cursor the log has issued so far (closed under reading) with every length of the alphabet, against a list reference; fabricated cursors for the no-panic clause. Within the bounds nothing is sampled.',
@@ -14,6 +24,8 @@ CHECKS={
    'DESIGN.md section 3.5 and 4 (C13)'),
 }
 ENGINES={
+ 'e1_router':'explicit-state BFS over action histories of the real rumqttd Router, rebuilt by re-execution, states merged by a fingerprint of the router snapshot + harness + monitor state; deviation-bounded manual scheduling',
+ 'e4_topicgrid':'bounded-exhaustive input grid for the three copies of topic matching/validation against a reference',
  'e5_commitlog':'explicit-state BFS over operation histories of the real CommitLog<T> (rumqttd::segments) with a list as reference model',
 }
 NOT_YET='check not built yet (work in progress; see DESIGN.md section 4 for the plan)'
